@@ -66,6 +66,13 @@ package prelude
 //@   trusted
 //@   modifies nothing
 
+// 62135596800 s between the zero Time and the Unix epoch.
 //@ func Unix
 //@   trusted
 //@   pure
+//@   ensures result == time.Time(62135596800000000000 + sec * 1000000000 + nsec)
+
+//@ func (Time).Unix
+//@   trusted
+//@   pure
+//@   ensures result == ediv(int64(t) - 62135596800000000000, 1000000000)
